@@ -7,6 +7,7 @@ from ..escape import Escape
 from ..typestate import InstanceTypestate
 from .c01 import listener_entries
 from .c07 import rule_typestate
+from . import shared
 
 IGNORED = {'InvalidTransition'}      # decided site by site by R2 (typestate)
 
@@ -133,6 +134,8 @@ def run(P, R):
                 'non-None-ness follows from the provenance of the command identifier, C04.R2)', 5)
     optional_uses(P, R, r4)
 
+    empty_literal_flow(P, R, r4)
+
     # ---------------------------------------------------------------- R5
     r5 = R.rule('R5', 'dispatch totality', 'enum-dispatched constructors never yield None: create_strategy and '
                 'conciliate_conflicts cover every member of their enum; every SupvisorsStates member has a class in '
@@ -172,6 +175,11 @@ def run(P, R):
                 'container expression it iterates (skipped elements / RuntimeError); iteration over a copy '
                 '(list(x), x.copy(), sorted(x), x[:]) is the accepted idiom', 5)
     iter_mutation(P, R, r8)
+    # ---------------------------------------------------------------- R9
+    r9 = R.rule('R9', 'remove() needs membership', 'every X.remove(y) on a collection received as a parameter (core '
+                'modules) is dominated by the fact `y in X`, or y iterates (a copy of) X, or the call is inside '
+                'try/except KeyError/ValueError', 2)
+    shared.unguarded_removes(P, R, r9)
     R.assume('Absence of every KeyError/TypeError/AttributeError in general is NOT decided; only the error classes '
              'listed per rule.')
     R.assume('Threads: proxy threads only post notifications; notification order across senders is taken as '
@@ -313,6 +321,59 @@ def optional_uses(P, R, rid):
                         '%s: `%s` is the result of %s (None when nothing fits) and is %s without a non-None test' %
                         (u.qual, var, src, use))
     R.require(n >= 5, 'only %d uses of nullable results found' % n)
+
+
+def empty_literal_flow(P, R, rid):
+    """a parameter that receives the literal '' at some call site (e.g. fail_command(process, '', ...) when no
+    instance was found) must not be used as a dictionary key without a truthiness fact, in the callee or in the
+    functions it is handed on to (depth 3)."""
+    work = []
+    for u in P.all_units():
+        if u.mod.short in ('supvisorsctl',) or u.mod.name.startswith('supvisors.web') or \
+                u.mod.name.startswith('supvisors.tools') or u.mod.name.startswith('supvisors.client'):
+            continue
+        env = None
+        for c in own_nodes(u.node):
+            if isinstance(c, ast.Call) and any(isinstance(a, ast.Constant) and a.value == '' for a in c.args) \
+                    and 'logger' not in call_text(c).split('.'):
+                env = env or P.env(u, u.cls)
+                for ctx, tu in env.targets(c) or []:
+                    ps = [x.arg for x in tu.node.args.args]
+                    if ps and ps[0] == 'self':
+                        ps = ps[1:]
+                    for i, a in enumerate(c.args):
+                        if isinstance(a, ast.Constant) and a.value == '' and i < len(ps):
+                            work.append((ctx, tu, ps[i], '%s:%d' % (u.qual, c.lineno), 0))
+    seen = set()
+    n = 0
+    while work:
+        ctx, tu, param, origin, depth = work.pop()
+        if (tu, param) in seen:
+            continue
+        seen.add((tu, param))
+        n += 1
+        fm = factmap(tu)
+        env = P.env(tu, ctx)
+        bad = []
+        for x in own_nodes(tu.node):
+            guarded = any(f[0] == param and f[1] for f in fm.at(x))
+            if isinstance(x, ast.Subscript) and isinstance(x.ctx, ast.Load) and isinstance(x.slice, ast.Name) \
+                    and x.slice.id == param and not guarded:
+                bad.append(x)
+            if isinstance(x, ast.Call) and depth < 3 and not guarded and 'logger' not in call_text(x).split('.'):
+                for i, a in enumerate(x.args):
+                    if isinstance(a, ast.Name) and a.id == param:
+                        for c2, t2 in env.targets(x) or []:
+                            ps = [y.arg for y in t2.node.args.args]
+                            if ps and ps[0] == 'self':
+                                ps = ps[1:]
+                            if i < len(ps):
+                                work.append((c2, t2, ps[i], origin, depth + 1))
+        R.check(rid, not bad, '%s: `%s` (may be the empty string, from %s) is not used as an unguarded key' %
+                (tu.qual, param, origin), 'empty-key|%s|%s' % (tu.qual, param), tu.loc(bad[0]) if bad else tu.loc(),
+                '%s uses `%s` as a key (`%s`) without a truthiness test, but %s passes the empty string: KeyError' %
+                (tu.qual, param, ast.unparse(bad[0])[:60] if bad else '', origin))
+    R.require(n >= 2, 'only %d parameters receiving an empty-string literal found' % n)
 
 
 def dispatch_total(P, R, rid, *_):
